@@ -614,9 +614,9 @@ class Spec:
         r = rng.random()
         self.user = self.pw = None
         if r < 0.25:
-            self.user = rng.choice(['u', 'user', 'U%73er', 'a%3Ab', 'a%40b', 'é', '%e9', '%C3%a9', 'a b', 'a+b', '%2F', 'x%', '%ff', ''])
+            self.user = rng.choice(['u', 'user', 'U%73er', 'a%3Ab', 'a%40b', 'é', '%e9', '%C3%a9', 'a b', 'a+b', '%2F', 'x%', '%ff', '', '%2541', '%25', 'a%25zz', '%252F', '%25%32%35'])
             if rng.random() < 0.6:
-                self.pw = rng.choice(['p', 'p:w', 'p%3aw', 'p@w', '%2f', 'ü', '', 'P W', '%zz', '%41'])
+                self.pw = rng.choice(['p', 'p:w', 'p%3aw', 'p@w', '%2f', 'ü', '', 'P W', '%zz', '%41', '%2541', '%25', 'x%253A'])
         r = rng.random()
         if r < 0.4:
             self.hostkind = 'name'
@@ -968,7 +968,7 @@ def stream_strings(ctx, wu, n, rng):
                 ctx.fail('escape-not-upper', 'uppercase_percent_encoding', {'stream': 'upper', 'text': arg}, '%r -> %r' % (arg, real))
         elif kind == 'pct':
             real = wu.percent_encode(arg[1].decode('latin-1'), sets[arg[0]], 'latin-1')
-            if wu.percent_encode(real, sets[arg[0]], 'latin-1') != real and '%' not in sets[arg[0]]:
+            if wu.percent_encode(real, sets[arg[0]], 'latin-1') != real and 37 not in sets[arg[0]]:
                 ctx.fail('not-idempotent', 'percent_encode', {'stream': 'pct', 'set': arg[0], 'bytes': arg[1]}, '%r' % real)
         else:
             real = arg.strip()
